@@ -15,7 +15,7 @@ ENTRY = ['pair.pairing', 'pair.fast', 'pair.prepared']
 
 
 def cases(tier, seed):
-    n = 320 if tier == 'quick' else 6000
+    n = 320 if tier == 'quick' else 15000
     out = [('kat', 0)]
     for i in range(n):
         out.append(('rand', i))
